@@ -27,6 +27,11 @@ Correspondence stream `c12` (request kinds):
          the recorded state (direct) or `ModelSpec.get_model_matrix`.  The model answers every use independently
          from the arguments the user wrote (`Engines.C12.handle`, op "uses" = map of the single-use engines), so a
          use that sees an earlier one (mutated argument, leaked state) disagrees.
+  typed columns (op=bs / cs / uses as above): the same calls and histories on integer-valued data STORED in every
+         integer width (int8..int64, uint8..uint64), the nullable / pyarrow integer dtypes, Float32, float32 and float16
+         (numpy array, pandas Series, DataFrame column through model_matrix + ModelSpec.get_model_matrix), with bounds
+         and knots written as Python ints (or half-integers as floats).  The model is storage-blind (it sees the values
+         as rationals): rows and recorded state must not depend on how the column is stored.
 Errors: the exception class must agree (ExtrapolationError / ValueError / IndexError) and, when the message is one
 of the known ones, the `raise` statement must be the one the model predicts (`Reason`); a reworded message is not
 recognised and only the class is compared.
@@ -133,6 +138,9 @@ TRUSTED = [
     "the transform's output unchanged",
 ]
 ASSUMPTIONS = [
+    "the storage dtype of a column is not modelled: the model sees the VALUES (exact rationals); that the rows do not depend "
+    "on the storage (integer widths, unsigned, nullable, float32/float16) is checked by the typed-column stream against the "
+    "storage-blind model and oracle, not proved",
     "bs theorems about values (partition of unity, non-negativity, local support, zero/extend modes) assume interior "
     "knots non-decreasing inside [lower, upper] (KnotsOk); bs_eq_coxdeboor holds for any knot list.  KnotsOk is PROVED "
     "for accepted df calls (bs_df_knots_admissible: modes raise/clip/na/zero; extend only when the data lie inside the "
@@ -162,7 +170,10 @@ RULE = (
     "knots container list/tuple/ndarray/formula literal, shared by all uses x entry point (direct calls with fresh state, x as "
     "ndarray or pandas Series | the terms of one model_matrix call | successive model_matrix calls; formula entry points with "
     "ensure_full_rank=False, na_action='ignore', all other arguments through the context) x new data per use through the recorded "
-    "state / ModelSpec.get_model_matrix"
+    "state / ModelSpec.get_model_matrix. typed columns (700 quick / 10000 thorough): the single-call generators (mostly cyclic for "
+    "cr/cc, extend in half) and the history generator rescaled to integer data, stored as int8..int64 / uint8..uint64 / nullable "
+    "Int*/UInt*/Float32/pyarrow ints / float32 / float16 (array | Series | DataFrame column), integer knots, bounds as Python ints "
+    "or half-integers; bs df=0 and other df below degree (+intercept) in the malformed stream"
 )
 TOL = 1e-9
 MODES = ["raise", "clip", "na", "zero", "extend"]
@@ -191,6 +202,48 @@ def fl(s):
 
 def arr(xs):
     return numpy.array([fl(v) for v in xs], dtype=float)
+
+
+# ---- storage of the column (the VALUES are what the property speaks about; how they are stored must not matter)
+
+NP_INT_DT = ["int8", "int16", "int32", "int64", "uint8", "uint16", "uint32", "uint64"]
+NP_FLOAT_DT = ["float16", "float32"]
+NULLABLE_DT = ["Int8", "Int16", "Int32", "Int64", "UInt8", "UInt16", "UInt32", "UInt64", "Float32",
+               "int64[pyarrow]", "uint8[pyarrow]", "int16[pyarrow]"]
+
+
+def _dt_unsigned(dt):
+    return dt is not None and dt.lower().startswith("u")
+
+
+def _dt_holds_nulls(dt):
+    return dt is None or dt in NP_FLOAT_DT or dt in NULLABLE_DT
+
+
+def store(xs, dt=None, cont="ndarray"):
+    """the column as the caller stores it: numpy array of dtype `dt` (default float64), or a pandas Series
+    (always for the nullable extension / pyarrow dtypes)"""
+    if dt is None:
+        a = arr(xs)
+    elif dt in NULLABLE_DT:
+        import pandas
+
+        conv = float if dt.startswith("Float") else int
+        return pandas.Series(pandas.array([None if v is None else conv(Fraction(v)) for v in xs], dtype=dt))
+    else:
+        a = arr(xs).astype(dt)
+    if cont == "series":
+        import pandas
+
+        return pandas.Series(a)
+    return a
+
+
+def num(s, c):
+    """a bound / knot as the caller writes it: a Python int when the case says so (`intargs`), else a float"""
+    if c.get("intargs") and Fraction(s).denominator == 1:
+        return int(Fraction(s))
+    return fl(s)
 
 
 def cell(v):
@@ -325,8 +378,8 @@ def gen_bs_plain(rng):
     r = rng.random()
     if r < 0.45:
         df = degree + (1 if intercept else 0) + rng.choice([0, 0, 1, 1, 2, 3, 4])
-        if rng.random() < 0.06:
-            df = rng.choice([0, degree - 1, -1, degree])  # malformed / edge
+        if rng.random() < 0.08:
+            df = rng.choice([0, 0, degree - 1, -1, degree])  # malformed / edge
     elif r < 0.85:
         k = rng.randint(0, 4)
         if lo <= hi:
@@ -536,7 +589,12 @@ def gen_helper(rng):
             if a == b and rng.random() < 0.7:
                 b = a + Fraction(rng.randint(1, 16), 8)
         x = [v for v in gen_x(rng, 0, 8, -40, 56, nulls=False)]
-        return dict(kind="helper", fn="map_cyclic", x=x, lb=fs(a), ub=fs(b))
+        c = dict(kind="helper", fn="map_cyclic", x=x, lb=fs(a), ub=fs(b))
+        if rng.random() < 0.35:
+            # integer-valued positions in an integer / float16 / float32 array
+            c["xdt"] = rng.choice(NP_INT_DT + NP_FLOAT_DT)
+            c["x"] = [fs(Fraction(rng.randint(0 if _dt_unsigned(c["xdt"]) else -6, 9))) for _ in x]
+        return c
     if r < 0.75:
         x = gen_x(rng, 0, 10)
         a, b = sorted([Fraction(rng.randint(-8, 24), 8), Fraction(rng.randint(-8, 24), 8)])
@@ -568,6 +626,94 @@ def gen_helper(rng):
 
 
 KCONTS = ["list", "list", "list", "tuple", "ndarray"]
+
+
+# ---- typed columns: integer-valued data stored in every integer width (signed / unsigned / nullable) and in
+# float32 / float16, with integer-valued (or half-integer) bounds and integer knots
+
+
+def _pick_dt(rng):
+    r = rng.random()
+    if r < 0.5:
+        return rng.choice(NP_INT_DT)
+    if r < 0.8:
+        return rng.choice(NULLABLE_DT)
+    return rng.choice(NP_FLOAT_DT)
+
+
+def _intify(a, xss, rng, fam):
+    """rescale a plain case by 8 (all data values become integers; unsigned storage: shifted to be non-negative),
+    integer knots, bounds integer (passed as Python ints in 2 of 3) or integer + 1/2.  `a`: the argument dict
+    (lower / upper / knots), `xss`: every data vector of the case (changed in place)."""
+    dt = _pick_dt(rng)
+    shift = 16 if _dt_unsigned(dt) else 0
+    sc = lambda v: None if v is None else Fraction(v) * 8 + shift
+    allv = [Fraction(v) for xs in xss[:1] for v in xs if v is not None]
+    olo = Fraction(a["lower"]) if a["lower"] is not None else (min(allv) if allv else Fraction(0))
+    ohi = Fraction(a["upper"]) if a["upper"] is not None else (max(allv) if allv else Fraction(0))
+    for xs in xss:
+        for i, v in enumerate(xs):
+            xs[i] = None if v is None else fs(sc(v))
+        if not _dt_holds_nulls(dt):
+            keep = [v for v in xs if v is not None]
+            for i, v in enumerate(xs):
+                if v is None:
+                    xs[i] = rng.choice(keep) if keep else fs(Fraction(shift))
+    intargs = rng.random() < (0.67 if fam == "bs" else 0.3)
+    lo, hi = sc(olo), sc(ohi)
+    if not intargs and rng.random() < 0.9:
+        # bounds between two integers: a wrapped / clipped position is not an integer
+        if a["lower"] is not None and rng.random() < 0.6:
+            lo += Fraction(1, 2)
+        if a["upper"] is not None and (rng.random() < 0.6 or lo == sc(olo)) and hi - Fraction(1, 2) > lo:
+            hi -= Fraction(1, 2)
+    if a["lower"] is not None:
+        a["lower"] = fs(lo)
+    if a["upper"] is not None:
+        a["upper"] = fs(hi)
+    if a["knots"] is not None:
+        ks = []
+        for k in a["knots"]:
+            inside = olo < Fraction(k) < ohi if fam == "cs" else olo <= Fraction(k) <= ohi
+            q = Fraction(math.floor(sc(k)))
+            if inside and fam == "cs":
+                if q <= lo:
+                    q = Fraction(math.floor(lo) + 1)
+                if q >= hi:
+                    q = Fraction(math.ceil(hi) - 1)
+            elif inside:
+                q = min(max(q, Fraction(math.ceil(lo))), Fraction(math.floor(hi)))
+            ks.append(fs(q))
+        a["knots"] = ks
+    return dt, intargs
+
+
+def gen_typed(rng):
+    """one bs / cr / cc call (fit + replay on new data) on a column stored as `xdt`"""
+    fam = "bs" if rng.random() < 0.5 else "cs"
+    c = gen_bs_plain(rng) if fam == "bs" else gen_cs_plain(rng)
+    for _ in range(2):
+        if fam == "cs" and (not c["cyclic"] or c["lower"] is None):
+            c = gen_cs_plain(rng)  # mostly cyclic, with explicit bounds
+    if rng.random() < 0.5:
+        c["mode"] = "extend"
+    if c["x2"] is None and rng.random() < 0.7:
+        c["x2"] = gen_x(rng, 1, 8)
+    xss = [c["x"]] + ([c["x2"]] if c["x2"] is not None else [])
+    c["xdt"], c["intargs"] = _intify(c, xss, rng, fam)
+    c["xcont"] = rng.choice(["ndarray", "series"])
+    if rng.random() < 0.3:
+        c["via"] = "bs" if fam == "bs" else ("cc" if c["cyclic"] else "cr")
+    return c
+
+
+def gen_typed_hist(rng):
+    """histories (direct calls, the terms of one formula, successive model_matrix calls + replay through the
+    ModelSpec) on typed columns"""
+    c = gen_hist(rng)
+    xss = [v for u in c["uses"] for v in (u["x"], u["x2"]) if v is not None]
+    c["xdt"], c["intargs"] = _intify(c["args"], xss, rng, c["fam"])
+    return c
 
 
 def gen_hist(rng):
@@ -624,6 +770,8 @@ def cases(rng, tier):
         yield gen_bs(rng) if rng.random() < 0.55 else gen_cs(rng)
     for i in range({"quick": 300, "thorough": 5000, "search": 60}[tier]):
         yield gen_hist(rng)
+    for i in range({"quick": 700, "thorough": 10000, "search": 80}[tier]):
+        yield gen_typed(rng) if rng.random() < 0.6 else gen_typed_hist(rng)
     for i in range({"quick": 300, "thorough": 4000, "search": 40}[tier]):
         yield gen_state(rng)
     for i in range({"quick": 500, "thorough": 6000, "search": 60}[tier]):
@@ -631,6 +779,15 @@ def cases(rng, tier):
 
 
 def describe(c):
+    d = _describe(c)
+    if c.get("xdt") is not None:
+        dt = c["xdt"]
+        d += ",stored=" + ("nullable" if dt in NULLABLE_DT else "float16/32" if dt in NP_FLOAT_DT else
+                           "unsigned" if _dt_unsigned(dt) else "signed") + (",intargs" if c.get("intargs") else "")
+    return d
+
+
+def _describe(c):
     if c["kind"] == "hist":
         a = c["args"]
         fam = "bs" if c["fam"] == "bs" else ("cc" if a["cyclic"] else "cr")
@@ -688,11 +845,11 @@ def _bs_kw(c, knots=None):
     ks = c["knots"] if knots is None else knots
     kw = dict(
         df=c["df"],
-        knots=None if ks is None else [fl(k) for k in ks],
+        knots=None if ks is None else [num(k, c) for k in ks],
         degree=c["degree"],
         include_intercept=c["intercept"],
-        lower_bound=None if c["lower"] is None else fl(c["lower"]),
-        upper_bound=None if c["upper"] is None else fl(c["upper"]),
+        lower_bound=None if c["lower"] is None else num(c["lower"], c),
+        upper_bound=None if c["upper"] is None else num(c["upper"], c),
         extrapolation=_mode_arg(c),
     )
     names = dict(df="df", knots="knots", degree="degree", intercept="include_intercept", lower="lower_bound",
@@ -712,11 +869,15 @@ def _bs_fn(c):
     return basis_spline
 
 
+def _col(c, xs):
+    return store(xs, c.get("xdt"), c.get("xcont", "ndarray"))
+
+
 def _bs_call(c, kw):
     fn = _bs_fn(c)
     st = {}
     try:
-        res = fn(arr(c["x"]), _state=st, **kw)
+        res = fn(_col(c, c["x"]), _state=st, **kw)
     except Exception as e:
         return err_info(e)
     keys, rows = _cols_rows(res, len(c["x"]))
@@ -728,7 +889,7 @@ def _bs_call(c, kw):
     if c["x2"] is not None:
         st2 = copy.deepcopy(st)
         try:
-            res2 = fn(arr(c["x2"]), _state=st2, **kw)
+            res2 = fn(_col(c, c["x2"]), _state=st2, **kw)
             k2, r2 = _cols_rows(res2, len(c["x2"]))
             out["second"] = dict(cols=[int(k) for k in k2], rows=r2)
         except Exception as e:
@@ -755,7 +916,9 @@ def impl_bs(c):
     return out
 
 
-def shaped(xs, shape):
+def shaped(xs, shape, c=None):
+    if c is not None and c.get("xdt") is not None and shape == "vec":
+        return _col(c, xs)
     a = arr(xs)
     if shape == "col":
         return a.reshape((-1, 1))
@@ -788,9 +951,9 @@ def _cs_kw(c, knots=None):
     ks = c["knots"] if knots is None else knots
     kw = dict(
         df=c["df"],
-        knots=None if ks is None else [fl(k) for k in ks],
-        lower_bound=None if c["lower"] is None else fl(c["lower"]),
-        upper_bound=None if c["upper"] is None else fl(c["upper"]),
+        knots=None if ks is None else [num(k, c) for k in ks],
+        lower_bound=None if c["lower"] is None else num(c["lower"], c),
+        upper_bound=None if c["upper"] is None else num(c["upper"], c),
         constraints=_cons_arg(c["constraints"]),
         cyclic=c["cyclic"],
         extrapolation=_mode_arg(c),
@@ -849,7 +1012,7 @@ def _cs_call(c, kw):
         fn = _cs_fn(c, CS)
         st = {}
         try:
-            res = fn(shaped(c["x"], c.get("xshape", "vec")), _state=st, **kw)
+            res = fn(shaped(c["x"], c.get("xshape", "vec"), c), _state=st, **kw)
         except Exception as e:
             return err_info(e)
         keys, rows = _cols_rows(res, len(c["x"]))
@@ -879,7 +1042,7 @@ def _cs_call(c, kw):
             out["at_knots"] = dict(error=err_class(e))
         if c["x2"] is not None:
             try:
-                res2 = fn(shaped(c["x2"], c.get("x2shape", "vec")), _state=copy.deepcopy(st), **kw)
+                res2 = fn(shaped(c["x2"], c.get("x2shape", "vec"), c), _state=copy.deepcopy(st), **kw)
                 k2, r2 = _cols_rows(res2, len(c["x2"]))
                 out["second"] = dict(ncols=len(k2), rows=r2)
             except Exception as e:
@@ -926,7 +1089,7 @@ def impl_helper(c):
 
     try:
         if c["fn"] == "map_cyclic":
-            r = CS._map_cyclic(arr(c["x"]), fl(c["lb"]), fl(c["ub"]))
+            r = CS._map_cyclic(store(c["x"], c.get("xdt")), fl(c["lb"]), fl(c["ub"]))
             return dict(out=[ffs(v) for v in r])
         if c["fn"] == "sorted_knots":
             r = CS._get_all_sorted_knots(
@@ -1033,7 +1196,7 @@ def _hist_term(c, var):
     a = c["args"]
     kn = "K_"
     if c["kcont"] == "literal":
-        kn = "[" + ", ".join(repr(fl(k)) for k in a["knots"]) + "]"
+        kn = "[" + ", ".join(repr(num(k, c)) for k in a["knots"]) + "]"
     if c["fam"] == "bs":
         return ("bs", f"bs({var}, df=DF_, knots={kn}, degree=D_, include_intercept=I_, lower_bound=L_, "
                       f"upper_bound=U_, extrapolation=M_)")
@@ -1059,10 +1222,11 @@ def impl_hist(c):
     fam, entry = c["fam"], c["entry"]
     K = None
     if a["knots"] is not None:
-        ks = [fl(k) for k in a["knots"]]
-        K = {"list": ks, "literal": ks, "tuple": tuple(ks), "ndarray": numpy.array(ks, dtype=float)}[c["kcont"]]
-    L = None if a["lower"] is None else fl(a["lower"])
-    U = None if a["upper"] is None else fl(a["upper"])
+        ks = [num(k, c) for k in a["knots"]]
+        K = {"list": ks, "literal": ks, "tuple": tuple(ks),
+             "ndarray": numpy.array(ks) if c.get("intargs") else numpy.array(ks, dtype=float)}[c["kcont"]]
+    L = None if a["lower"] is None else num(a["lower"], c)
+    U = None if a["upper"] is None else num(a["upper"], c)
     if fam == "bs":
         kw = dict(df=a["df"], knots=K, degree=a["degree"], include_intercept=a["intercept"], lower_bound=L,
                   upper_bound=U, extrapolation=a["mode"])
@@ -1081,7 +1245,7 @@ def impl_hist(c):
             from formulaic.transforms.basis_spline import basis_spline
 
             fn = basis_spline if fam == "bs" else hooks.CS.cubic_spline
-            wrap = (lambda v: pandas.Series(arr(v))) if c["xcont"] == "series" else arr
+            wrap = lambda v: store(v, c.get("xdt"), c["xcont"])
             res = []
             for u in c["uses"]:
                 st = {}
@@ -1115,7 +1279,7 @@ def impl_hist(c):
                 var = (lambda i: f"x{i}") if entry == "terms" else (lambda i: "x0")
                 terms = [_hist_term(c, var(i)) for i in g]
                 formula = " + ".join(t for _, t in terms) + " - 1"
-                data = pandas.DataFrame({var(i): arr(c["uses"][i]["x"]) for i in g})
+                data = pandas.DataFrame({var(i): store(c["uses"][i]["x"], c.get("xdt"), "series") for i in g})
                 try:
                     mm = model_matrix(formula, data, context=ctx, na_action="ignore", ensure_full_rank=False)
                 except Exception as e:
@@ -1128,7 +1292,7 @@ def impl_hist(c):
                 names = list(ms.column_names)
                 mm2 = None
                 if c["uses"][g[0]]["x2"] is not None and all(c["uses"][i]["x2"] is not None for i in g):
-                    data2 = pandas.DataFrame({var(i): arr(c["uses"][i]["x2"]) for i in g})
+                    data2 = pandas.DataFrame({var(i): store(c["uses"][i]["x2"], c.get("xdt"), "series") for i in g})
                     try:
                         mm2 = ms.get_model_matrix(data2, context=ctx)
                     except Exception as e:
@@ -1455,7 +1619,7 @@ def _bs_expected_error(c):
         return "ValueError"
     if c["mode"] == "raise" and any(v < lo or v > hi for v in vals):
         return "ValueError"
-    if c["df"]:
+    if c["df"] is not None:
         if c["df"] - c["degree"] - (1 if c["intercept"] else 0) < 0:
             return "ValueError"
         if c["mode"] in ("clip", "na", "zero") and not any(lo <= v <= hi for v in vals):
@@ -1487,7 +1651,7 @@ def _oracle_bs_rows(c, st, xs, out, which, t_ref=None):
     ncols = len(t) - d - 1 - (0 if icpt else 1)
     if len(out["cols"]) != ncols:
         return f"{which}: {len(out['cols'])} columns, the knot vector has {ncols} basis functions" + ("" if icpt else " besides the dropped first")
-    if c["df"] and len(out["cols"]) != c["df"]:
+    if c["df"] is not None and len(out["cols"]) != c["df"]:
         return f"{which}: {len(out['cols'])} columns but df={c['df']}"
     ok = _knots_ok(lo, hi, interior)
     nondeg = [i for i in range(len(t) - 1) if t[i] < t[i + 1]]
@@ -1545,6 +1709,11 @@ def oracle_bs(c, o):
             return f"basis_spline raised {o['error']} on valid arguments"
         return None
     if exp == "ValueError":
+        if c["df"] is not None and c["knots"] is None and len(o["first"]["cols"]) != c["df"]:
+            # "has df columns": a df that no knot vector of this degree can deliver must not be answered with a
+            # basis of another size (every other such df is refused)
+            return (f"df={c['df']} with degree={c['degree']}, include_intercept={c['intercept']}: returned "
+                    f"{len(o['first']['cols'])} columns (the transform has df columns, or refuses the df)")
         if c["mode"] == "raise" and not (c["df"] is not None and c["knots"] is not None):
             return "extrapolation='raise' did not raise although a value lies outside the bounds"
         return None  # argument validation is not part of the property
@@ -1557,13 +1726,13 @@ def oracle_bs(c, o):
     if len(t) < 2 * d + 2 or t[: d + 1] != [lo] * (d + 1) or t[len(t) - d - 1:] != [hi] * (d + 1):
         return f"recorded knot vector {list(map(float, t))} is not padded with degree+1 copies of the bounds"
     interior = t[d + 1: len(t) - d - 1]
-    if c["df"] and c["mode"] != "extend":
+    if c["df"] is not None and c["mode"] != "extend":
         vals = [Fraction(v) for v in c["x"] if v is not None and lo <= Fraction(v) <= hi]
         want = quantiles(vals, len(interior)) if vals else []
         if len(want) != len(interior) or any(not close(float(a), float(b)) for a, b in zip(interior, want)):
             return f"interior knots {list(map(float, interior))} are not the equally spaced quantiles {list(map(float, want))} of the in-range data"
     t_ref = None
-    if not c["df"] and c["knots"] is not None:
+    if c["df"] is None and c["knots"] is not None:
         # the basis the arguments denote: on the bounds padded around the given knots in ascending order
         t_ref = [lo] * (d + 1) + sorted(Fraction(k) for k in c["knots"]) + [hi] * (d + 1)
     w = _oracle_bs_rows(c, st, c["x"], o["first"], "first call", t_ref)
